@@ -25,6 +25,7 @@ func checkC11(c *Ctx) {
 	r.Rule("R02.3", "(shared with C02) every record has the shape of the format in force: the only payload that is not the finished buffer is the blank line of Print/Println, taken exactly for lvl == AlwaysLevel with a blank message")
 	r.Rule("R10.9", "(shared with C10) isolation of anonymous children: two New(\"\") children are distinct loggers (the caller's name is the registry key only when it is a non-empty string)")
 	r.Rule("R04.2", "(shared with C04) a JSON logger emits JSON: in JSON mode everything written verbatim is encoder text, a number, a time, a quoted string or MarshalJSON output (raw MarshalText output is not)")
+	r.Rule("R05.11", "(shared with C05) the shape of the format in force: pairs and separators of the fixed members alternate on every mode-feasible path (no dangling separator)")
 	r.Rule("R11.5", "isolation: no store to useJSON/useColor of another logger (shared with R10.1)")
 	for _, tags := range c.Configs([]string{""}, []string{"", "verbose", "hint"}) {
 		p := c.Prog(tags)
@@ -45,6 +46,10 @@ func checkC11(c *Ctx) {
 		c11NoEscapes(c, p, m)
 		childNameDecision(c, p, "R10.9")
 		emissionCommon(c, p, m, Mode{true, true}, "R04.2")
+		timeTextQuoted(c, p, m, Mode{true, true}, "R04.2")
+		timeTextQuoted(c, p, m, Mode{false, true}, "R04.2")
+		fixedMemberGrammar(c, p, m, Mode{true, true}, "R05.11")
+		fixedMemberGrammar(c, p, m, Mode{false, true}, "R05.11")
 		c02Newline(c, p, m)
 		c09Globals(c, p, m)
 		c08Stores(c, p, m)
